@@ -165,7 +165,7 @@ def explore(cfg, eng, ctx):
             return
         cs = []
         aggs.compare(data, again, "nan", agg, ignore, ishape, side, cs)
-        eng.assert_(z3.And(*[c for _, c, _ in cs]), "evaluation after an interrupt differs from a correct evaluation")
+        aggs.assert_all(eng, cs, "evaluation after an interrupt differs from a correct evaluation")
         ctx.end_path()
 
     eng.explore(path)
